@@ -260,17 +260,21 @@ fn check_operands(f: &LocalFunction, log: &[String], mode: &str) -> Result<(), S
             }
             let (_, fs) = irtext::fields(instr);
             let mut want: Vec<String> = vec![];
+            // the sequences a block, a loop or an if owns are operands too (`visit_instr_seq_id`); branch
+            // targets are not visited by design (`skip_visit`)
+            let owns_seqs = matches!(instr, walrus::ir::Instr::Block(_) | walrus::ir::Instr::Loop(_) | walrus::ir::Instr::IfElse(_));
             for (_, kind, ids) in fs {
-                if "ftgmyxde".contains(kind) {
+                if "ftgmyxde".contains(kind) || (kind == "s" && owns_seqs) {
                     for id in ids {
                         want.push(format!("{}{}", kind, id));
                     }
                 }
             }
+            let is_seq_operand = |e: &str| e.len() > 1 && e.starts_with('s') && e[1..].chars().all(|c| c.is_ascii_digit());
             let mut got = vec![];
             let mut j = k + 1;
             while j < log.len() && !is_struct_event(&log[j]) {
-                if is_entity_event(&log[j]) {
+                if is_entity_event(&log[j]) || (owns_seqs && is_seq_operand(&log[j])) {
                     got.push(log[j].clone());
                 }
                 j += 1;
